@@ -185,6 +185,8 @@ class World:
                 t.start()
             for t in ths:
                 t.join()
+            # the state when everybody is done (judged as well: a stale last message must not be papered over by what follows)
+            self.presettle = {'idx': len(D.CURRENT.events), 'cache': {(mn, p): int(mods[mn].parameters[p].value) for mn, ps in MODS.items() for p in ps}}
             # when everybody is done every parameter changes once more: a subscription that was lost on the way shows
             for mn, ps in MODS.items():
                 for p in ps:
@@ -358,6 +360,14 @@ class World:
                 for mn, ps in MODS.items():
                     for p in ps:
                         if self.covers(sc['scope'], mn, p):
+                            pre = getattr(self, 'presettle', None)
+                            if pre is not None:
+                                seq0 = [v for i_, v in per.get(f'{mn}:_{p}', []) if i_ < pre['idx']]
+                                final0 = version_of(mn, p, pre['cache'][(mn, p)])
+                                if not seq0 or seq0[-1] != final0:
+                                    r.violation('C08/last-message-differs-from-cache', f'{cname}: {mn}:{p} last delivered version {seq0[-1:] or None} when all threads had '
+                                                f'finished, cache held version {final0}', dict(case, conn=cname, ident=f'{mn}:{p}'))
+                                    return
                             seq = [v for _, v in per.get(f'{mn}:_{p}', [])]
                             final = version_of(mn, p, int(mods[mn].parameters[p].value))
                             if not seq or seq[-1] != final:
